@@ -6,14 +6,16 @@
 
 using namespace vp;
 
-enum { OP_DIV, OP_QUOT, OP_REM, OP_QUOT_A, OP_REM_A, OP_VALUE, OP_BC_DIV, OP_BC_VALUE, OP_COUNT };
+enum { OP_DIV, OP_QUOT, OP_REM, OP_QUOT_A, OP_REM_A, OP_VALUE, OP_BC_DIV, OP_BC_VALUE, OP_HELPER, OP_COUNT };
 static const VpOp OPS[] = {
     {"div", {VK_INT, VK_INT_REL}, {}, 4}, {"operator/", {VK_INT, VK_INT_REL}, {}, 2}, {"operator%", {VK_INT, VK_INT_REL}, {}, 2}, {"operator/=", {VK_INT, VK_INT_REL}, {}, 1}, {"operator%=", {VK_INT, VK_INT_REL}, {}, 1},
     {"value", {VK_INT, VK_INT_REL}, {}, 1}, {"broadcast_div", {VK_INT, VK_INT_REL}, {}, 3}, {"broadcast_value", {VK_INT, VK_INT_REL}, {}, 1},
+    // the 128-by-64-bit division every 64-bit denominator computes its multiplier with: div_64uhi_by_64u(x, y) = floor(x * 2^64 / y) for x < y (vec1x64u only)
+    {"div_64uhi_by_64u", {VK_RAW, VK_RAW}, {}, 1},
 };
-enum { CL_D_PM1, CL_D_POW2, CL_D_MIN, CL_D_MAX, CL_N_NEAR_MULTIPLE_AT_END, CL_DISTINCT_DIVISORS, CL_BROADCAST, CL_NEG, CL_ORDINARY };
+enum { CL_D_PM1, CL_D_POW2, CL_D_MIN, CL_D_MAX, CL_N_NEAR_MULTIPLE_AT_END, CL_DISTINCT_DIVISORS, CL_BROADCAST, CL_NEG, CL_ORDINARY, CL_DIGIT_EDGE };
 static const char* const CLASSES[] = {"divisor_plus_minus_1", "divisor_power_of_two", "divisor_MIN", "divisor_MAX", "numerator_within_1_of_multiple_near_range_end",
-                                      "distinct_divisors_in_lanes", "broadcast_from_scalar_denominator", "negative_operand", "ordinary"};
+                                      "distinct_divisors_in_lanes", "broadcast_from_scalar_denominator", "negative_operand", "ordinary", "trial_digit_on_correction_edge"};
 #ifdef VP_PROP_C15
 extern "C" const char* vp_property(void) { return "C15"; }
 extern "C" const char* vp_rule(void) {
@@ -25,12 +27,18 @@ extern "C" const char* vp_rule(void) {
 extern "C" const char* vp_property(void) { return "C14"; }
 extern "C" const char* vp_rule(void) {
     return "a case is (n, d) with d != 0 (and not MIN/-1) for one of the eight integer types and a form (div, /, %, /=, %=, value); non-trivial = |d| in {1, 2^k, MIN, MAX} or n within 1 of a "
-           "multiple of d in the top or bottom 2^-8 of the range; distinct = distinct hash of the Case";
+           "multiple of d in the top or bottom 2^-8 of the range, or (div_64uhi_by_64u) operands for which a 32-bit trial digit of the long division is two too large; distinct = distinct hash of the Case";
 }
 #define TGT(c) ((c) != 2)
 #endif
 extern "C" const VpOp* vp_ops(uint32_t* n) { *n = OP_COUNT; return OPS; }
-extern "C" const char* const* vp_class_names(uint32_t* n) { *n = 9; return CLASSES; }
+extern "C" const char* const* vp_class_names(uint32_t* n) { 
+#ifdef VP_PROP_C15
+    *n = 9;
+#else
+    *n = 10;
+#endif
+    return CLASSES; }
 VP_DEFINE_VECTOR_TARGETS(TGT)
 
 template<class T> static void classify(uint64_t n, uint64_t d, VpOutcome* o, bool* nt) {
@@ -50,9 +58,27 @@ template<class T> static void classify(uint64_t n, uint64_t d, VpOutcome* o, boo
 }
 
 #ifndef VP_PROP_C15
+template<class T> static typename std::enable_if<!std::is_same<T, std::uint64_t>::value>::type helper_op(const VpCase*, VpOutcome* o) { o->status = 2; }
+template<class T> static typename std::enable_if<std::is_same<T, std::uint64_t>::value>::type helper_op(const VpCase* c, VpOutcome* o) {
+    uint64_t y = c->v[1][0]; if (y == 0) y = 1;
+    uint64_t x = c->v[0][0] % y;                       // precondition of the helper: x < y, so that the quotient fits 64 bits
+    const uint64_t exp = (uint64_t)((((u128)x) << 64) / y);
+    // classification: would a one-digit trial quotient of the schoolbook division be two too large (first digit)?
+    {
+        const int sh = __builtin_clzll(y); const uint64_t den = y << sh, num = x << sh, den1 = den >> 32, den0 = den & 0xFFFFFFFFull;
+        const uint64_t qh = num / den1; const u128 tq = (((u128)num) << 32) / den;
+        if (qh >= (uint64_t)tq + 2) { o->classes |= 1u << CL_DIGIT_EDGE; o->nontrivial = 1; }
+        (void)den0;
+    }
+    if ((y & (y - 1)) == 0) { o->classes |= 1u << CL_D_POW2; o->nontrivial = 1; }
+    if (!o->nontrivial) o->classes |= 1u << CL_ORDINARY;
+    uint64_t got = avel::div_64uhi_by_64u(x, y);
+    cmp_lanes(o, 1, &exp, &got, nullptr, "div_64uhi_by_64u", "floor(x * 2^64 / y)");
+}
 template<class V> static void run(const VpCase* c, VpOutcome* o) {
     typedef typename V::scalar T;
     if (V::width != 1) { o->status = 2; return; }
+    if (c->op == OP_HELPER) { helper_op<T>(c, o); return; }
     if (c->op >= OP_BC_DIV) { o->status = 2; return; }
     const uint64_t m = elem<T>::mask(), MINP = 1ull << (elem<T>::bits - 1);
     uint64_t n = c->v[0][0] & m, d = c->v[1][0] & m;
@@ -97,6 +123,7 @@ template<class V> static void run(const VpCase* c, VpOutcome* o) {
     const unsigned W = V::width;
     const uint64_t m = elem<T>::mask(), MINP = 1ull << (elem<T>::bits - 1);
     uint64_t n[VP_MAXL], d[VP_MAXL], eq[VP_MAXL], er[VP_MAXL], gq[VP_MAXL], gr[VP_MAXL];
+    if (c->op == OP_HELPER) { o->status = 2; return; }
     const bool bc = c->op >= OP_BC_DIV;
     bool nt = false, distinct = false, special = false;
     for (unsigned i = 0; i < W; ++i) {
@@ -180,6 +207,39 @@ static void numerators_for(unsigned B, bool sgn, uint64_t d, uint64_t seed, std:
     for (int k = 0; k < 3; ++k) { x ^= x >> 29; x *= 0xBF58476D1CE4E5B9ull; add(sgn ? (i128)(int64_t)(((x & m) & MINP) ? ((x & m) | ~m) : (x & m)) : (i128)(x & m)); }
 }
 
+// divisors with a multiple c*d (c next to 2^(B/2)) next to a power of two, d = floor / ceil(2^k / c): the magic-number computation divides a power of two
+// by d digit by digit, and these are the divisors for which a trial digit sits on the edge of its correction step
+static void reciprocal_divisors(unsigned B, bool sgn, int tier, std::vector<uint64_t>& D) {
+    const unsigned h = B / 2; const uint64_t m = B == 64 ? ~0ull : ((1ull << B) - 1);
+    const unsigned J = tier ? 24 : 8;
+    // ... and the same with c anywhere in [2^(h-1), 2^h): the quotient floor(2^k / d) is then c - 1 with a remainder next to d, the situation in which
+    // the trial digits of a digit-by-digit division need their largest correction
+    {
+        const uint64_t NC = B == 64 ? (tier ? 120000 : 16000) : (tier ? 4000 : 500);
+        uint64_t z = 0x243F6A8885A308D3ull + B;
+        for (uint64_t i = 0; i < NC; ++i) {
+            z += 0x9E3779B97F4A7C15ull; uint64_t r = z; r ^= r >> 30; r *= 0xBF58476D1CE4E5B9ull; r ^= r >> 27; r *= 0x94D049BB133111EBull; r ^= r >> 31;
+            const uint64_t half = 1ull << (h - 1);
+            const u128 c = (i & 1) ? (u128)((half << 1) - 1 - ((r >> 8) % (half < 65536 ? half : 65536))) : (u128)(half + (r >> 8) % half);
+            const unsigned k = h + 2 + (unsigned)(r % (B - 2));
+            const u128 d = (((u128)1) << k) / c + 1;
+            if (d < 2 || d > (u128)(sgn ? (m >> 1) : m)) continue;
+            D.push_back((uint64_t)d & m);
+            if (sgn && (i & 2)) D.back() = (uint64_t)(0 - (uint64_t)d) & m;
+        }
+    }
+    for (unsigned k = h + 2; k <= B + h - 1; ++k)
+        for (unsigned j = 1; j <= 2 * J; ++j) {
+            const u128 c = j <= J ? ((u128)1 << h) - j : ((u128)1 << h) + (j - J);
+            const u128 p = (u128)1 << k;
+            for (u128 d : {p / c, p / c + 1}) {
+                if (d < 2 || d > (u128)(sgn ? (m >> 1) : m)) continue;
+                D.push_back((uint64_t)d & m);
+                if (sgn) D.push_back((uint64_t)(0 - (uint64_t)d) & m);
+            }
+        }
+}
+
 extern "C" void vp_enum(int tier, uint64_t seed, uint32_t shard, uint32_t nshards, void (*emit)(const VpCase*, void*), void* ctx) {
     uint32_t nt; const VpTarget* T = vp_targets(&nt);
     uint64_t job = 0;
@@ -191,12 +251,35 @@ extern "C" void vp_enum(int tier, uint64_t seed, uint32_t shard, uint32_t nshard
 #endif
         std::vector<uint64_t> D = vpl::int_lattice(B);
         if (B == 8) { D.clear(); for (unsigned x = 1; x < 256; ++x) D.push_back(x); }
+        else reciprocal_divisors(B, sgn, tier, D);
         for (unsigned op = 0; op < OP_COUNT; ++op) {
             if ((job++ % nshards) != shard) continue;
 #ifndef VP_PROP_C15
-            if (op >= OP_BC_DIV) continue;
+            if (op >= OP_BC_DIV && op != OP_HELPER) continue;
 #endif
             VpCase c; std::memset(&c, 0, sizeof c); c.target = t; c.op = op;
+            if (op == OP_HELPER) {
+#ifndef VP_PROP_C15
+                if (B != 64 || sgn) continue;
+                // (1) operands built so that the first trial digit sits exactly on the edge between "one too large" and "two too large";
+                // (2) lattice x lattice
+                uint64_t z = seed * 0x9E3779B97F4A7C15ull + 12345;
+                auto nx = [&]() { z += 0x9E3779B97F4A7C15ull; uint64_t r = z; r ^= r >> 30; r *= 0xBF58476D1CE4E5B9ull; r ^= r >> 27; r *= 0x94D049BB133111EBull; r ^= r >> 31; return r; };
+                for (unsigned i = 0; i < (tier ? 400000u : 40000u); ++i) {
+                    uint64_t den1 = 0x80000000ull + nx() % 0x7FFFFFFFull; if (i % 16 == 0) den1 = 0x80000000ull + (i / 16) % 64;
+                    const uint64_t den0 = den1 + 1 + nx() % (0xFFFFFFFFull - den1);                    // den0 in (den1, 2^32)
+                    const uint64_t qmin = (uint64_t)((((u128)den1) << 32) / den0) + 1; if (qmin > 0xFFFFFFFFull) continue;
+                    const uint64_t qhat = qmin + nx() % (0x100000000ull - qmin);
+                    const uint64_t hi = (uint64_t)(((u128)qhat * den0) >> 32); if (hi < den1 || hi >= 2 * den1) continue;
+                    const uint64_t rhat = hi - den1;
+                    c.v[0][0] = qhat * den1 + rhat; c.v[1][0] = (den1 << 32) | den0;
+                    emit(&c, ctx);
+                }
+                { const std::vector<uint64_t> L = vpl::int_lattice(64);
+                  for (size_t i = 0; i < L.size(); i += (tier ? 1 : 2)) for (size_t j = (i % 3); j < L.size(); j += (tier ? 1 : 3)) { c.v[0][0] = L[i]; c.v[1][0] = L[j]; emit(&c, ctx); } }
+#endif
+                continue;
+            }
             if (B == 8) {
                 // all (n, d) pairs; vector forms: lane i carries divisor d+i (different divisors in different lanes); broadcast forms: every d
                 const bool bc = op >= OP_BC_DIV;
